@@ -251,9 +251,18 @@ func run(c *h.Ctx, cs Case) {
 				c.Fail("C12/compose/prefix-error-swallowed", "Select(%q) fails but Select(%q) does not (data %s)", s1.Text(), text, canon(data))
 			}
 		case sel.Value:
+			before := canon(o1.node)
 			o2, err := implSelect(s2.Text(), o1.node)
 			if err != nil {
 				continue
+			}
+			// a value returned by Select belongs to the caller: resolving further segments on it is "doing the
+			// segments one after the other", and must leave that value as it was and give the same answer again
+			if after := canon(o1.node); after != before {
+				c.Fail("C12/compose/intermediate-changed/"+segClass(cs.Sel, k-1)+"+"+segClass(cs.Sel, k), "x1 = Select(%q, x) was %s; after Select(%q, x1) it reads %s (x=%s)", s1.Text(), before, s2.Text(), after, canon(data))
+			}
+			if o3, err := implSelect(s2.Text(), o1.node); err == nil && (o3.st != o2.st || (o2.st == sel.Value && canon(o3.node) != canon(o2.node))) {
+				c.Fail("C12/compose/second-use-differs/"+segClass(cs.Sel, k-1)+"+"+segClass(cs.Sel, k), "Select(%q, x1) with x1 = Select(%q, x): first %s %s, again %s %s (x=%s)", s2.Text(), s1.Text(), o2.st, showOut(o2), o3.st, showOut(o3), canon(data))
 			}
 			m2 := multi || hasMapIter(s2, val.FromNode(o1.node))
 			same := o2.st == got.st && (got.st != sel.Value || equalNodes(o2.node, got.node, m2))
